@@ -63,6 +63,13 @@ def check(run):
                 ops = [dict(op="New", arg=0, vals=sh), dict(op="Index", arg=sh[-1]), dict(op="Contains", arg=sh[0]),
                        dict(op="Add", arg=top + 100), dict(op="Remove", arg=sh[len(sh) // 2]), dict(op="Index", arg=top + 100)]
                 plans.append(mkplan(mode, ops, ordered=(mode == "asc" and n % 2 == 0)))
+    # NewSorted over hundreds to thousands of values (few distinct values, so that the multiset clause stays cheap to evaluate)
+    for mode in ("asc", "desc", "key"):
+        for n in ((513, 600, 1038) if run.quick() else (257, 513, 514, 600, 1000, 1038, 1500, 2049, 3000)):
+            dom = list(range(1, 30)) if mode != "key" else [k * 10 + t for k in range(1, 12) for t in range(0, 3)]
+            vals = [run.rng.choice(dom) for _ in range(n)]
+            ops = [dict(op="New", arg=0, vals=vals), dict(op="Index", arg=vals[0]), dict(op="Add", arg=dom[-1]), dict(op="Remove", arg=vals[n // 2])]
+            plans.append(mkplan(mode, ops, ordered=(mode == "asc")))
     # look-up, change, look-up again (anything a Sorted might remember between calls must be dropped by the change): every
     # triple over small contents (quick: a seeded sample)
     import itertools as _it
